@@ -20,7 +20,8 @@ RULE = ("cases = (script, silent in {True, False}, mode): supported statement mi
         "exhaustively, then seeded random insertion) in 3 modes; documented ignored lines (GO/USE/INSERT/GRANT/DELETE) which must be "
         "skipped in both settings; corpus scripts for the silent/loud agreement; unknown output_mode strings (near-misses such as "
         "'SQL', 'hql ', 'postgresql', '') . Non-trivial = a script containing at least one unsupported statement or an unknown mode; "
-        "distinct = distinct (script, mode).") % len(GS.all_kinds())
+        "distinct = distinct (script, mode)."
+        " Added after seeded defects: stray-semicolon family, unterminated ignored lines at every gap, the silent/loud pair through parse_from_file(parser_settings).") % len(GS.all_kinds())
 ASSUMPTIONS = ["'supported' = scripts of the modelled generators; 'unsupported' = the calibrated catalogue (each entry raises when loud and yields [] when silent on the pinned tree)",
                "lines starting with GO / USE / INSERT / GRANT / DELETE are documented as ignored by the pre-processor, so they raise in neither setting"]
 MIN_EVENTS = {"run_call": 500}
